@@ -902,6 +902,17 @@ MUTABLE_EXT = {'LIST', 'DICT', 'SET', 'SORTED', 'CONCAT', 'APPENDED', 'EXTENDED'
                'pandas.DataFrame', 'pandas.Series', 'ARRAY', 'numpy.asarray', 'numpy.zeros', 'numpy.ones', 'numpy.empty', 'COPY', 'copy.deepcopy', 'DICT.fromkeys'}
 
 
+_IMMUTABLE_RECORDS = set()
+
+
+def _note_immutable_records(M):
+    for c in M.classes.values():
+        if any(b.split('.')[-1] == 'NamedTuple' for b in c.base_names) or any(
+                isinstance(d, ast.Call) and ast.unparse(d.func).split('.')[-1] == 'dataclass' and any(k.arg == 'frozen' and isinstance(k.value, ast.Constant) and k.value.value is True
+                                                                                                     for k in d.keywords) for d in c.node.decorator_list):
+            _IMMUTABLE_RECORDS.add(c.name)
+
+
 def _mutability(t):
     """'immutable' | 'flat' (a mutable container of immutable/opaque elements) | 'deep' (mutable objects inside a mutable container) | 'unknown'"""
     h = t[0]
@@ -925,6 +936,10 @@ def _mutability(t):
     if h == 'accum':
         return 'flat'
     if h == 'new':
+        if t[1] in _IMMUTABLE_RECORDS:
+            # a NamedTuple / frozen dataclass: as immutable as what it holds
+            ks = {_mutability(v) for _, v in t[2]}
+            return 'immutable' if ks <= {'immutable'} else ('unknown' if ks <= {'immutable', 'unknown'} else 'deep')
         return 'deep'
     if h == 'ite':
         ks = {_mutability(t[2]), _mutability(t[3])}
@@ -978,6 +993,7 @@ def new_memo(ctx, f):
                       'value-based equality lets two objects with different contents share cache entries', key='C18.memo|identity|%s' % f.qn)
         return
     vals = [p.value for p in ps if p.outcome == 'return' and p.value is not None]
+    _note_immutable_records(M)
     kinds = {_mutability(v) for v in vals}
     if kinds <= {'immutable'}:
         if open_:
@@ -1109,6 +1125,86 @@ def _wrapped_by_copy(t, R):
 STATELESS_CLASSES = ('CSVDailyBarDataSource', 'BacktestDataHandler', 'SingleSignalAlphaModel', 'FixedSignalsAlphaModel', 'StaticUniverse', 'DynamicUniverse',
                   'FixedWeightPortfolioOptimiser', 'EqualWeightPortfolioOptimiser', 'PercentFeeModel', 'ZeroFeeModel', 'SimulatedExchange',
                   'DollarWeightedCashBufferedOrderSizer', 'LongShortLeveragedOrderSizer', 'PortfolioConstructionModel', 'ExecutionHandler', 'QuantTradingSystem')
+
+
+def _lazy_slot(ctx, c, m, fld):
+    """`if self.F is None: self.F = f(self.a, self.b)` ... answer from self.F: a figure kept until one of its inputs is assigned again.  Sound when every method of the
+    class (setters included) that assigns an input also sets self.F back to None.  -> (True, inputs) | (False, why) | None (not this idiom)"""
+    from ..symex import Undecided
+    # read off the syntax first: `if self.F is None: ... self.F = <value> ...` as the only non-None assignment of self.F in the class
+    def is_slot(x):
+        return isinstance(x, ast.Attribute) and x.attr == fld and isinstance(x.value, ast.Name) and x.value.id == 'self'
+    fills, others = [], []
+    for g in c.methods.values():
+        for n_ in ast.walk(g.node):
+            if isinstance(n_, ast.Assign) and any(is_slot(t_) for t_ in n_.targets):
+                if isinstance(n_.value, ast.Constant) and n_.value.value is None:
+                    continue
+                (fills if g is m else others).append(n_)
+    if fills and not others:
+        guards = [k for k in ast.walk(m.node) if isinstance(k, ast.If) and isinstance(k.test, ast.Compare) and len(k.test.ops) == 1 and isinstance(k.test.ops[0], ast.Is)
+                  and is_slot(k.test.left) and isinstance(k.test.comparators[0], ast.Constant) and k.test.comparators[0].value is None]
+        if guards and all(any(f_ is x_ for g_ in guards for b_ in g_.body for x_ in ast.walk(b_)) for f_ in fills):
+            def reads(node, depth=0, seen=None):
+                seen = seen if seen is not None else set()
+                out = set()
+                for x_ in ast.walk(node):
+                    if isinstance(x_, ast.Attribute) and isinstance(x_.value, ast.Name) and x_.value.id == 'self' and isinstance(x_.ctx, ast.Load):
+                        h = c.lookup(x_.attr)
+                        if h is None:
+                            out.add(x_.attr)
+                        elif depth < 3 and h.qn not in seen:
+                            seen.add(h.qn)
+                            out |= reads(h.node, depth + 1, seen)
+                return out
+            deps_ = set()
+            for g_ in guards:
+                for b_ in g_.body:
+                    deps_ |= reads(b_)
+            deps_.discard(fld)
+            params_ = {p_ for p_ in m.params if p_ not in ('self', 'cls')}
+            uses_param = any(isinstance(x_, ast.Name) and x_.id in params_ for g_ in guards for b_ in g_.body for x_ in ast.walk(b_))
+            if deps_ and not uses_param:
+                return _lazy_slot_writers(ctx, c, m, fld, deps_)
+    try:
+        ps = summarise(ctx, m, policy=default_policy)
+    except Undecided:
+        return None
+    slot = A('self', fld)
+    deps = set()
+    nw = 0
+    for p in ps:
+        for w in heap_writes(p, into_loops=False):
+            if w.loc == slot:
+                if w.value is None or w.value == T.NONE:
+                    continue
+                guarded = any(v_ and c_[0] == 'cmp' and c_[1] in ('is', '==') and {c_[2], c_[3]} == {slot, T.NONE} for c_, v_, _ in p.conds)
+                if not guarded:
+                    return None
+                nw += 1
+                if any(s_[0] == 'var' and s_[1] in m.params and s_[1] != 'self' for s_ in T.subterms(w.value)):
+                    return None         # depends on an argument: a memo, not a kept figure
+                if any(s_[0] == 'call' and s_[1][0] in ('fn', 'meth') for s_ in T.subterms(w.value)):
+                    return (False, 'it is computed by calls this rule does not follow (%s)' % fmt(w.value)[:60])
+                deps |= {s_[2] for s_ in T.subterms(w.value) if s_[0] == 'attr' and s_[1] == V('self') and s_[2] != fld}
+    if not nw or not deps:
+        return None
+    return _lazy_slot_writers(ctx, c, m, fld, deps)
+
+
+def _lazy_slot_writers(ctx, c, m, fld, deps):
+    def assigns(g, names):
+        return any(isinstance(t_, ast.Attribute) and isinstance(t_.value, ast.Name) and t_.value.id == 'self' and t_.attr in names
+                   for n_ in ast.walk(g.node) for t_ in ((n_.targets if isinstance(n_, ast.Assign) else [n_.target] if isinstance(n_, (ast.AugAssign, ast.AnnAssign)) else [])))
+    proj = {ch_[0]: pn_ for ch_, (cn_, pn_) in ctx.M.projections().items() if len(ch_) == 1}
+    names = set(deps) | {proj.get(d_, d_) for d_ in deps} | {k_ for k_, v_ in proj.items() if v_ in deps}
+    bad = [g.qn for g in c.methods.values() if g.name != '__init__' and not _ctor_only(ctx.M, g) and g.qn != m.qn and assigns(g, names) and not assigns(g, {fld})]
+    outside = [w for d_ in names for w in writers_of_attr(ctx.M, d_, owner=c.name) if w.fn.cls is None or w.fn.cls.name not in ctx.M.owner_family(c.name)]
+    if bad:
+        return (False, '%s assigns an input (%s) without dropping it' % (bad[0], ', '.join(sorted(deps))))
+    if outside:
+        return (False, 'an input (%s) is also assigned from outside the class (%s)' % (', '.join(sorted(deps)), outside[0].fn.qn))
+    return (True, ', '.join(sorted(deps)))
 
 
 def _revalidated(ctx, m, state_fields):
@@ -1301,6 +1397,14 @@ def state_scan(ctx, cnames):
                     # the field is consulted for one thing only: deciding when to empty the memo/cursor tables (the time of the last query, a generation count)
                     ctx.undecided('C18.memo', 'stateless components keep no state between calls (%s)' % m.qn, m.site(n),
                                   'self.%s only decides when self.%s is emptied: whether that is often enough is the open question about those tables' % (fld, '/'.join(sorted(tables_))))
+                    continue
+                lz_ = _lazy_slot(ctx, c, m, fld)
+                if lz_ is not None:
+                    ok_, why_ = lz_
+                    if ok_:
+                        ctx.holds('C18.memo', '%s: self.%s is filled on demand from %s and dropped by every method that assigns one of them' % (m.qn, fld, why_), m.site(n))
+                    else:
+                        ctx.undecided('C18.memo', 'stateless components keep no state between calls (%s)' % m.qn, m.site(n), 'self.%s is filled on demand; %s' % (fld, why_))
                     continue
                 rv_ = _revalidated(ctx, m, set(found))
                 if rv_:
